@@ -79,8 +79,9 @@ Definition query (m : mspec) (o : mop) : mspec * mout :=
   | ODepth => (m, match unroll_v (sp_q2 m) [] (sp_prog m) with Ok o => OutZ (max_depth (o_state o)) | Err e => OutErr e end)
   | ONumQ => (m, match validate_v (sp_q2 m) (sp_prog m) with Ok o => OutZ (num_qubits (o_state o)) | Err e => OutErr e end)
   | ONumC => (m, match validate_v (sp_q2 m) (sp_prog m) with Ok o => OutZ (num_clbits (o_state o)) | Err e => OutErr e end)
-  | OHasM => (m, match flat m with Ok f => has_answer KMeas m f | Err e => OutErr e end)
-  | OHasB => (m, match flat m with Ok f => has_answer KBarr m f | Err e => OutErr e end)
+  (* on a program that is rejected the flags are not specified (they never raise) *)
+  | OHasM => (m, match flat m with Ok f => has_answer KMeas m f | Err _ => OutAnyB end)
+  | OHasB => (m, match flat m with Ok f => has_answer KBarr m f | Err _ => OutAnyB end)
   (* the printed program is compared after re-loading and unrolling it: a module with an unrolled
      view prints its flat program, whose re-loading unrolls it once more (the same program
      whenever unroll is a fixpoint, C03); otherwise the source-level program is printed *)
